@@ -2,6 +2,7 @@ import RasnModel.Basic.Sexp
 import RasnModel.Spec.IntTy
 import RasnModel.Gen.IntType
 import RasnModel.Pv.Range
+import RasnModel.Driver.C04
 /- line-protocol handler for C06 -/
 namespace Driver.C06
 open Sexp Gen Extracted.IntType
@@ -65,6 +66,41 @@ def handle : List Sexp → String
         | some v => if Spec.literalOk tok v then "t" else "f"
       s!"{model} {if ok then "t" else "f"} {lok} {findingClass path cs}"
     | _, _ => "bad-request"
+  | _ => "bad-request"
+
+/-- `c06set <path> ( C04-style constraints ) <token>` ↦ `<modelToken> <tokenOk> <finding class>`: constraints that contain set
+    operators. Component path: the PER-visible fold (Pv/Fold, the C04 model) followed by `int_type_token`;
+    assignment path: `Integer::int_type` sees no plain range / single value in such a constraint (`other`).
+    Reference semantics: the hull of the permitted set (Spec/Subtype), extensible iff a marker is written. -/
+def handleSet : List Sexp → String
+  | [.atom path, .list cs, .atom tok] =>
+    match cs.mapM Driver.C04.parseCons with
+    | some cs =>
+      open Driver.C04 Spec.Subtype Pv in
+      let simple (s : SrcCons) : Option IntCons :=
+        if !s.chain.rest.isEmpty || s.allExcept then none else
+        match s.chain.first with
+        | .single v _ => some (.single v (s.marker || s.outerMarker))
+        | .range lo hi _ => some (.range lo hi (s.marker || s.outerMarker))
+      let model :=
+        if path == "assign" then assignmentToken (cs.map fun s => (simple s).getD .other)
+        else match perVisibleRange true (cs.map toCons) with
+          | some r => intTypeToken r.min r.max r.ext
+          | none => "error"
+      let groups := cs.map fun s => if s.allExcept then ([] : Groups) else parse s.chain
+      let hulls : List (Option Iv) := (cs.zip groups).map fun (s, g) => if s.allExcept then some ⟨none, none⟩ else hull g
+      let eff : Option Iv := hulls.foldl (fun acc h => match acc, h with | some a, some b => some (a.meet b) | _, _ => none) (some ⟨none, none⟩)
+      let legal := (cs.zip groups).all fun (s, g) => s.allExcept || allNonempty g
+      match eff with
+      | some eff =>
+        if !legal || !eff.nonempty then s!"{model} skip none" else
+        let ok := Spec.tokenOk tok ⟨eff.lo, eff.hi, cs.any fun s => s.marker || s.outerMarker⟩
+        -- the same finding class as for plain serial constraints: the marker of one constraint is forgotten
+        let cls := if path == "assign" && cs.length ≥ 2 && cs.any (fun s => s.marker || s.outerMarker) && cs.any (fun s => !(s.marker || s.outerMarker))
+          then "C06_serial_ext_ignored" else "none"
+        s!"{model} {if ok then "t" else "f"} {cls}"
+      | none => s!"{model} skip none"
+    | none => "bad-request"
   | _ => "bad-request"
 
 end Driver.C06
